@@ -31,7 +31,10 @@ impl serde::Serialize for Component {
     where
         S: serde::Serializer,
     {
-        ().serialize(serializer)
+        // The whitespace the writer still owes the output is part of the state:
+        // without it the first token after a checkpoint loses the space or
+        // newlines that separate it from what was written before.
+        self.writer.serialize(serializer)
     }
 }
 
@@ -41,8 +44,11 @@ impl<'de> serde::Deserialize<'de> for Component {
     where
         D: serde::Deserializer<'de>,
     {
-        <()>::deserialize(deserializer)?;
-        Ok(Default::default())
+        let writer = token::Writer::deserialize(deserializer)?;
+        Ok(Self {
+            writer,
+            ..Default::default()
+        })
     }
 }
 
